@@ -36,9 +36,11 @@ constexpr auto shift_right(BidiIt first, BidiIt last, typename etl::iterator_tra
         return last;
     }
 
-    auto dest = etl::prev(last);
-    auto src  = etl::prev(dest, n);
-    for (; src != first; --dest, (void)--src) {
+    auto dest = last;
+    auto src  = etl::prev(last, n);
+    while (src != first) {
+        --dest;
+        --src;
         *dest = etl::move(*src);
     }
 
@@ -46,7 +48,8 @@ constexpr auto shift_right(BidiIt first, BidiIt last, typename etl::iterator_tra
     // If the value type has a default constructor we do a little cleanup.
     using value_type = typename etl::iterator_traits<BidiIt>::value_type;
     if constexpr (is_default_constructible_v<value_type>) {
-        for (; dest != first; --dest) {
+        while (dest != first) {
+            --dest;
             *dest = value_type{};
         }
     }
